@@ -594,7 +594,7 @@ def run(ctx: Ctx) -> None:
                         guard_ok = True
             if dunder == '__pow__':
                 guard_ok = isinstance(f.body[-1], ast.Raise) and all(
-                    isinstance(st, (ast.If, ast.ImportFrom, ast.Raise, ast.Expr)) for st in f.body
+                    isinstance(st, (ast.If, ast.ImportFrom, ast.Raise, ast.Expr)) or (isinstance(st, ast.Assign) and isinstance(st.value, (ast.JoinedStr, ast.Constant))) for st in f.body
                 )
             ctx.add('C01.R1', f'Expression.{dunder}:guard', guard_ok, f, 'operand is checked before the node is built' if guard_ok else f'{dunder} builds a node without checking that the operand is numeric or an Expression', 'guard')
     ctx.floor('C01.R1', 40)
